@@ -101,12 +101,40 @@ func isErrorType(t types.Type) bool {
 // nilEdge: cuts = edges on which value v (pointer or error) is known nil (want=true) or non-nil.
 func nilEdges(fn *ssa.Function, v ssa.Value, wantNil bool) *core.Cuts {
 	cuts := core.NewCuts()
+	// a test of a phi that merges v with other values decides v too on every way that comes from v's definition,
+	// provided the other ways into the merge cannot be taken after v was computed (flag style: `if !trusted { err =
+	// check(x) }; if err == nil { ... }`)
+	same := map[ssa.Value]bool{v: true}
+	if def, isInstr := v.(ssa.Instruction); isInstr && def.Block() != nil {
+		for _, b := range fn.Blocks {
+			for _, in := range b.Instrs {
+				phi, isPhi := in.(*ssa.Phi)
+				if !isPhi {
+					break
+				}
+				has, ok := false, true
+				for i, e := range phi.Edges {
+					if e == v {
+						has = true
+						continue
+					}
+					pred := b.Preds[i]
+					if pred == def.Block() || core.CanReach(fn, def, pred.Instrs[len(pred.Instrs)-1]) {
+						ok = false
+					}
+				}
+				if has && ok {
+					same[phi] = true
+				}
+			}
+		}
+	}
 	for _, cd := range core.Conds(fn) {
 		var other ssa.Value
 		switch {
-		case cd.X == v:
+		case same[cd.X]:
 			other = cd.Y
-		case cd.Y == v:
+		case same[cd.Y]:
 			other = cd.X
 		default:
 			continue
@@ -391,7 +419,9 @@ func RuleD2D3(c *Ctx) {
 		if sg == nil {
 			c.Bad("D2", spec.name+":subgroup", fn.Pos(), "on the untrusted path no subgroupCheck is applied to the decoded x: points outside the prime-order subgroup are accepted")
 		} else {
-			c.Check(all(nilEdges(fn, sg, true)), "D2", spec.name+":subgroup", sg.Pos(), "success is reachable without the nil-error edge of subgroupCheck(x)", "nil-error edge dominates success")
+			sgCut := core.NewCuts()
+			sgCut.AddInstr(sg)
+			c.Check(all(sgCut) && all(nilEdges(fn, sg, true)), "D2", spec.name+":subgroup", sg.Pos(), "success is reachable without subgroupCheck(x) or without its nil-error edge", "the call and its nil-error edge dominate success")
 		}
 		// (e) y comparison
 		if spec.unc {
@@ -428,7 +458,46 @@ func RuleD2D3(c *Ctx) {
 					cmp = call
 				}
 			}
+			// the same comparison by value: [32]byte == [32]byte, one side the encoding of the recomputed Y, the other
+			// the y half of the input viewed as an array
+			var arrCmp *ssa.BinOp
 			if cmp == nil {
+				isCalcY := func(v ssa.Value) bool {
+					bc, isCall := v.(*ssa.Call)
+					if ld, isLd := v.(*ssa.UnOp); isLd && ld.Op == token.MUL {
+						if al, isAl := ld.X.(*ssa.Alloc); isAl {
+							if sts := storesInto(al); len(sts) == 1 {
+								bc, isCall = sts[0].Val.(*ssa.Call)
+							}
+						}
+					}
+					if !isCall || !core.IsMethod(core.Callee(bc.Common()), "bls12-381/fr", "Element", "Bytes") {
+						return false
+					}
+					fa, isFA := bc.Call.Args[0].(*ssa.FieldAddr)
+					return isFA && pt != nil && fa.X == ssa.Value(pt) && fa.Field == 1
+				}
+				isInputY := func(v ssa.Value) bool {
+					ld, isLd := v.(*ssa.UnOp)
+					if !isLd || ld.Op != token.MUL {
+						return false
+					}
+					sp, isSP := ld.X.(*ssa.SliceToArrayPointer)
+					return isSP && derivesFrom(sp.X, "p:buf") && isYPart(sp.X)
+				}
+				core.AllInstrs(fn, func(in ssa.Instruction) {
+					bo, ok := in.(*ssa.BinOp)
+					if !ok || (bo.Op != token.EQL && bo.Op != token.NEQ) || !onUntrusted(bo) {
+						return
+					}
+					if (isCalcY(bo.X) && isInputY(bo.Y)) || (isCalcY(bo.Y) && isInputY(bo.X)) {
+						arrCmp = bo
+					}
+				})
+			}
+			if arrCmp != nil {
+				c.Check(all(boolEdges(fn, arrCmp, arrCmp.Op == token.EQL)), "D2", spec.name+":y-matches", arrCmp.Pos(), "success is reachable without the equal edge of the y comparison", "equal edge of the array comparison dominates success")
+			} else if cmp == nil {
 				c.Bad("D2", spec.name+":y-matches", fn.Pos(), "on the untrusted path the supplied y bytes are not compared with the canonical encoding of the recomputed y")
 			} else {
 				c.Check(all(boolEdges(fn, cmp, true)), "D2", spec.name+":y-matches", cmp.Pos(), "success is reachable without the equal edge of the y comparison", "equal edge dominates success")
@@ -779,13 +848,13 @@ func RuleD4(which ...string) Rule {
 					}
 					total++
 					key := fmt.Sprintf("absInt:outcome[x=%d]", sv)
-					ret, _, why := core.Walk(fn, abs)
+					ret, path, why := core.Walk(fn, abs)
 					if ret == nil {
 						c.Und("D4", key, fn.Pos(), "cannot evaluate: "+why)
 						continue
 					}
-					mag, ok1 := core.EvalInt(ret.Results[0], abs)
-					neg, ok2 := core.EvalInt(ret.Results[1], abs)
+					mag, ok1 := core.EvalOnPath(path, ret.Results[0], abs)
+					neg, ok2 := core.EvalOnPath(path, ret.Results[1], abs)
 					// results may be phis: re-evaluate through Walk's phi handling is not available; accept direct forms only
 					wantMag, wantNeg := sv, int64(0)
 					if sv < 0 {
@@ -1029,6 +1098,9 @@ func RuleD7(targets [][3]string, floor int) Rule {
 				callee := core.CalleeName(call.Common())
 				if strings.HasPrefix(callee, "fmt.") || strings.HasPrefix(callee, "errors.") {
 					continue // constructors of errors
+				}
+				if f := core.Callee(call.Common()); f != nil && core.IsMethod(f, "bytes", "Buffer", f.Name()) && (f.Name() == "Write" || f.Name() == "WriteByte" || f.Name() == "WriteString" || f.Name() == "WriteRune") {
+					continue // documented to return a nil error always (the buffer grows or panics)
 				}
 				n++
 				idx++
